@@ -39,12 +39,15 @@ PROP = dict(
           "constructor shapes (default, two values, move-only argument), retention limit in {0,1,2,3,64,unbounded}, LIFO/FIFO/random "
           "free order, pool destruction with parked blocks; non-trivial when a parked block was reused and a block was released to the "
           "heap or a pool died with parked blocks. "
-          "fd: 30-150 operations on 2-6 Fd handles over recording close functions (unique fake descriptor numbers), real pipe "
-          "descriptors with the default close, real pipe descriptors with a recording close function, and Fd(-1): construct, copy/move "
+          "fd: 30-150 operations on 2-6 Fd handles over recording close functions (descriptor values drawn from {0,1,2,3,12,13,255,"
+          "1023,1024,65535,INT_MAX, unique large ones}; 0 most often), negative values {-1,-2,-100,INT_MIN} with a recording close "
+          "function (never to be closed), real pipe descriptors with the default close, real pipe descriptors with a recording "
+          "close function (in a quarter of the cases descriptor number 0 is freed first so that a pipe end becomes descriptor 0; "
+          "restored at the end of the case), and Fd(-1): construct, copy/move "
           "construct, copy/move assign (incl. self and between handles that already share a record), assign from a temporary, swap, "
           "reset, close, destroy; non-trivial when a descriptor was closed by the release of its last of >= 3 copies and another one by "
           "explicit close() while shared or by being assigned over. fd-x: every history of fixed depth over 36 operations on three "
-          "handles. lifetime: 30-130 operations on 1-3 LifetimeTag and 2-6 Watcher objects. "
+          "handles (the k-th descriptor of a history has the value 0, 1, INT_MAX, 2, 12). lifetime: 30-130 operations on 1-3 LifetimeTag and 2-6 Watcher objects. "
           "distinct = distinct operation-script hashes among the non-trivial cases"),
     assumptions=[
         "cabinet visitors only remove entries (the header allows exactly that during foreach); they never alloc or clear",
@@ -53,7 +56,10 @@ PROP = dict(
         "the pool's retention behaviour (take a parked block if there is one, malloc otherwise; park on free while fewer than the "
         "limit are parked) and the meaning of the ObjectPoolStat fields are taken from the comments in object_pool.hpp",
         "Fd::close() closes immediately whatever the number of copies (fd.h says so); a descriptor closed that way is not closed again",
-        "real descriptors are identified by (number, pipe inode); the harness opens no other descriptors while a case runs",
+        "real descriptors are identified by (number, pipe inode); the harness opens no other descriptors while a case runs "
+        "(duplicates of stdout/stderr are taken once at start-up; descriptor 0 of the harness process is temporarily replaced by a "
+        "pipe end in some fd cases and put back when the case ends - nothing in the harness reads stdin)",
+        "what get()/isNull() answer for a handle built on a negative value other than -1 is not judged",
         "lifetime leg: a Watcher that observes nothing (default-constructed, reset or moved-from) is never used as the source of a "
         "copy - the property text says nothing about watchers; see findings/c08.md for what happens if it is",
         "heap accounting uses the ASan allocator hooks on the main thread only (the harness kit's watchdog thread is ignored)",
@@ -83,7 +89,10 @@ PROP = dict(
         "fd_close_on_last_release", "fd_close_by_assignment", "fd_explicit_close", "fd_explicit_close_while_shared",
         "fd_close_again_noop", "fd_assign_same_record", "fd_self_assign", "fd_copy_construct", "fd_move_construct",
         "fd_copy_assign", "fd_move_assign", "fd_swap", "fd_reset", "fd_destroy",
-        "fd_desc_fake_func", "fd_desc_real_default", "fd_desc_real_func",
+        "fd_desc_fake_func", "fd_desc_real_default", "fd_desc_real_func", "fd_desc_negative_func",
+        # boundary descriptor values: 0 is a descriptor, negative values are not
+        "fd_value_zero_desc", "fd_value_zero_released_by_last_copy", "fd_value_zero_explicit_close", "fd_value_zero_real_desc",
+        "fd_value_one_or_two_released_by_last_copy", "fd_value_int_max_released_by_last_copy",
         # lifetime tag
         "lt_watcher_outlives_tag", "lt_tag_destroy_watched", "lt_tag_destroy_unwatched", "lt_watcher_copy", "lt_watcher_move",
         # the heap accounting was really in place
